@@ -11,7 +11,7 @@ shift
 HERE=$(cd "$(dirname "$0")/.." && pwd)
 SCR=${PCSIM_SCRATCH:-/tmp/pcsim-scratch.$$}
 mkdir -p "$SCR/sim" "$SCR/root/evidence" "$SCR/root/replays"
-cp -r "$HERE/sim/src" "$HERE/sim/.cargo" "$SCR/sim/"
+cp -r "$HERE/sim/src" "$HERE/sim/.cargo" "$HERE/sim/build.rs" "$SCR/sim/"
 sed "s#path = \"/repo\"#path = \"$REPO_DIR\"#" "$HERE/sim/Cargo.toml" > "$SCR/sim/Cargo.toml"
 cp "$HERE/known_findings.txt" "$SCR/root/"
 rc=0
